@@ -39,6 +39,7 @@ func main() {
 	ru.Run("laws", r.N(6000, 60000)) // race-built: thorough is sized for the detector's slowdown (design: 150 000 without it)
 	ru.Report()
 	invalidPatterns(r)
+	everyPosition(r)
 	concurrent(r)
 	pinned(r)
 	// race build (file RACE): every data race the detector saw during the workload is a violation
